@@ -62,10 +62,8 @@ func (c *GenericNumberState) NextToken(
 		}
 	}
 
-	// Unread last unprocessed symbol.
-	if !utilities.CharValidator.IsEof(nextSymbol) {
-		scanner.Unread()
-	}
+	// Unread last unprocessed symbol (or the end-of-input slot).
+	scanner.Unread()
 
 	// Process the result.
 	if !gotADigit {
